@@ -47,11 +47,11 @@ Inductive trapk := TUnreachable | TDiv | TOob | TIndirect | TExhaust | TStuck | 
 
 (* ---------------------------------------------------------------- store *)
 Record inst := { i_funcs : list nat; i_globals : list nat; i_mem : option nat; i_tab : option nat;
-                 i_types : list (nat * nat) }.      (* type section as (nparams, nresults) *)
+                 i_types : list (list Z * list Z) }. (* type section: parameter / result widths *)
 
 Inductive funcdef :=
-| FWasm (ii : nat) (np nr : nat) (nlocals : nat) (body : list instr)
-| FHost (h : nat) (np nr : nat).
+| FWasm (ii : nat) (tp tr : list Z) (nlocals : nat) (body : list instr)   (* parameter / result widths *)
+| FHost (h : nat) (tp tr : list Z).
 
 Record memory := { mlen : Z; mmax : Z (* pages bound *); mdata : list (Z * Z) }.
 
@@ -77,6 +77,13 @@ Record store := { s_funcs : list funcdef; s_insts : list inst; s_globals : list 
 Variable host : nat -> list V -> hostres V.
 Variable listened : nat -> bool.                    (* store function addresses with a listener *)
 Variable maxdepth : nat.
+
+Fixpoint list_eqb (a b : list Z) : bool :=
+  match a, b with
+  | [], [] => true
+  | x :: a', y :: b' => (x =? y) && list_eqb a' b'
+  | _, _ => false
+  end.
 
 Definition upd {A} (l : list A) (i : nat) (x : A) : list A :=
   if Nat.ltb i (length l) then firstn i l ++ x :: skipn (S i) l else l.
@@ -115,52 +122,130 @@ Definition setstack (f : frame) (stk : list V) : frame := {| stack := stk; local
 
 Definition zeros (n : nat) : list V := repeat (of_const D 64 0) n.
 
-(* exec: instruction sequences of the function running in instance [ii] at call depth [depth].
-   invoke: call of store function [fa] with [args]; returns results. Mutual recursion through fuel. *)
+(* instructions without control flow or calls: one step on (store, frame) *)
+Inductive sres := SOk (s : store) (f : frame) | STrap (t : trapk) | SNot.
+
+Definition the_mem (s : store) (ii : nat) : option (nat * memory) :=
+  match i_mem (the_inst s ii) with
+  | Some ma => match nth_error (s_mems s) ma with Some m => Some (ma, m) | None => None end
+  | None => None
+  end.
+
+Definition step_simple (ii : nat) (s : store) (f : frame) (i : instr) : sres :=
+  let me := the_inst s ii in
+  match i, stack f with
+  | Nop, _ => SOk s f
+  | Unreachable, _ => STrap TUnreachable
+  | Const w c, stk => SOk s (setstack f (of_const D w c :: stk))
+  | Un o, x :: stk => SOk s (setstack f (d_un D o x :: stk))
+  | Bin o, y :: x :: stk =>
+      match d_bin D o x y with
+      | Some v => SOk s (setstack f (v :: stk))
+      | None => STrap TDiv
+      end
+  | Drop, _ :: stk => SOk s (setstack f stk)
+  | Select, c :: b :: a :: stk => SOk s (setstack f ((if truthy D c then a else b) :: stk))
+  | LocalGet k, stk =>
+      match nth_error (locals f) k with
+      | Some v => SOk s (setstack f (v :: stk)) | None => STrap TStuck end
+  | LocalSet k, v :: stk => SOk s {| stack := stk; locals := upd (locals f) k v |}
+  | LocalTee k, v :: stk => SOk s {| stack := v :: stk; locals := upd (locals f) k v |}
+  | GlobalGet k, stk =>
+      match nth_error (i_globals me) k with
+      | Some ga => match nth_error (s_globals s) ga with
+                   | Some v => SOk s (setstack f (v :: stk)) | None => STrap TStuck end
+      | None => STrap TStuck end
+  | GlobalSet k, v :: stk =>
+      match nth_error (i_globals me) k with
+      | Some ga => SOk (set_globals s (upd (s_globals s) ga v)) (setstack f stk)
+      | None => STrap TStuck end
+  | Load w n sx off, a :: stk =>
+      match the_mem s ii with
+      | Some (ma, m) =>
+          let ea := to_u32 D a + off in
+          if ea + Z.of_nat n <=? mlen m then
+            let raw := rd_le (mdata m) ea n in
+            SOk s (setstack f (of_bits D w (if sx then sext n w raw else raw) :: stk))
+          else STrap TOob
+      | None => STrap TStuck end
+  | Store n off, v :: a :: stk =>
+      match the_mem s ii with
+      | Some (ma, m) =>
+          let ea := to_u32 D a + off in
+          if ea + Z.of_nat n <=? mlen m then
+            let m' := {| mlen := mlen m; mmax := mmax m; mdata := wr_le (mdata m) ea n (to_bits D v) |} in
+            SOk (set_mems s (upd (s_mems s) ma m')) (setstack f stk)
+          else STrap TOob
+      | None => STrap TStuck end
+  | MemorySize, stk =>
+      match the_mem s ii with
+      | Some (ma, m) => SOk s (setstack f (of_bits D 32 (mlen m / 65536) :: stk))
+      | None => STrap TStuck end
+  | MemoryGrow, d :: stk =>
+      match the_mem s ii with
+      | Some (ma, m) =>
+          let cur := mlen m / 65536 in
+          let dz := to_u32 D d in
+          if cur + dz <=? mmax m then
+            let m' := {| mlen := (cur + dz) * 65536; mmax := mmax m; mdata := mdata m |} in
+            SOk (set_mems s (upd (s_mems s) ma m')) (setstack f (of_bits D 32 cur :: stk))
+          else SOk s (setstack f (of_bits D 32 (2 ^ 32 - 1) :: stk))
+      | None => STrap TStuck end
+  | (Block _ _ _ | Loop _ _ _ | If _ _ _ _ | Br _ | BrIf _ | BrTable _ _ | Return | Call _ | CallIndirect _), _ => SNot
+  | _, _ => STrap TStuck
+  end.
+
+(* invoke: call of store function [fa] with [args] at call depth [depth]; [ex] is the interpreter for
+   function bodies (exec with the remaining fuel). Results are returned in declaration order. *)
+Inductive ires := IOk (s : store) (vs : list V) | ITrap (t : trapk) (s : store) | IFuel.
+
+Definition run_body (ex : nat -> nat -> store -> frame -> list instr -> out)
+           (depth ci : nat) (s : store) (args : list V) (nr nl : nat) (body : list instr) : ires :=
+  match ex depth ci s {| stack := []; locals := args ++ zeros nl |} body with
+  | Normal s' f' | Ret s' f' | Branch _ s' f' => IOk s' (rev (firstn nr (stack f')))
+  | Trap t s' => ITrap t s'
+  | OutOfFuel => IFuel
+  end.
+
+(* listener bracketing around a call *)
+Definition bracket (fa : nat) (args : list V) (s : store) (k : store -> ires) : ires :=
+  if listened fa then
+    match k (add_log s (EBefore fa args)) with
+    | IOk s' vs => IOk (add_log s' (EAfter fa vs)) vs
+    | ITrap t s' => ITrap t (add_log s' (EAbort fa))
+    | IFuel => IFuel
+    end
+  else k s.
+
+Definition invoke_with (ex : nat -> nat -> store -> frame -> list instr -> out)
+           (depth : nat) (s : store) (fa : nat) (args : list V) : ires :=
+  bracket fa args s (fun s0 =>
+    if Nat.ltb maxdepth depth then ITrap TExhaust s0 else
+    match nth_error (s_funcs s0) fa with
+    | None => ITrap TStuck s0
+    | Some (FWasm ci tp tr nl body) => run_body ex (S depth) ci s0 args (length tr) nl body
+    | Some (FHost h tp tr) =>
+        let s1 := add_log s0 (EHost h args) in
+        match host h args with
+        | HRet vs => IOk s1 vs
+        | HPanic c => ITrap (THostPanic c) s1
+        | HExit c => ITrap (TExit c) s1
+        | HReenter g gargs =>
+            (* the host calls back a guest function and returns its results *)
+            match nth_error (s_funcs s1) g with
+            | Some (FWasm ci gtp gtr gnl gbody) =>
+                bracket g gargs s1 (fun s2 => run_body ex (S (S depth)) ci s2 gargs (length gtr) gnl gbody)
+            | _ => ITrap TStuck s1
+            end
+        end
+    end).
+
+(* exec: instruction sequences of the function running in instance [ii] at call depth [depth]. *)
 Fixpoint exec (fuel : nat) (depth : nat) (ii : nat) (s : store) (f : frame) (is : list instr) {struct fuel} : out :=
   match fuel with
   | O => OutOfFuel
   | S fu =>
-    let invoke (s : store) (fa : nat) (args : list V) : (store * list V) + (trapk * store) + unit :=
-      (* inl (inl ok) | inl (inr trap) | inr tt = out of fuel *)
-      let s0 := if listened fa then add_log s (EBefore fa args) else s in
-      let fin (r : (store * list V) + (trapk * store) + unit) :=
-        match r with
-        | inl (inl (s', vs)) => inl (inl (if listened fa then add_log s' (EAfter fa vs) else s', vs))
-        | inl (inr (t, s')) => inl (inr (t, if listened fa then add_log s' (EAbort fa) else s'))
-        | inr tt => inr tt
-        end in
-      if Nat.ltb maxdepth depth then fin (inl (inr (TExhaust, s0))) else
-      match nth_error (s_funcs s) fa with
-      | None => fin (inl (inr (TStuck, s0)))
-      | Some (FWasm ci np nr nl body) =>
-          match exec fu (S depth) ci s0 {| stack := []; locals := args ++ zeros nl |} body with
-          | Normal s' f' | Ret s' f' | Branch _ s' f' => fin (inl (inl (s', rev (firstn nr (stack f')))))
-          | Trap t s' => fin (inl (inr (t, s')))
-          | OutOfFuel => inr tt
-          end
-      | Some (FHost h np nr) =>
-          let s1 := add_log s0 (EHost h args) in
-          match host h args with
-          | HRet vs => fin (inl (inl (s1, vs)))
-          | HPanic c => fin (inl (inr (THostPanic c, s1)))
-          | HExit c => fin (inl (inr (TExit c, s1)))
-          | HReenter g gargs =>
-              (* the host calls back a guest function and returns its results *)
-              match nth_error (s_funcs s) g with
-              | Some (FWasm ci gnp gnr gnl gbody) =>
-                  let s2 := if listened g then add_log s1 (EBefore g gargs) else s1 in
-                  match exec fu (S (S depth)) ci s2 {| stack := []; locals := gargs ++ zeros gnl |} gbody with
-                  | Normal s' f' | Ret s' f' | Branch _ s' f' =>
-                      let vs := rev (firstn gnr (stack f')) in
-                      fin (inl (inl (if listened g then add_log s' (EAfter g vs) else s', vs)))
-                  | Trap t s' => fin (inl (inr (t, if listened g then add_log s' (EAbort g) else s')))
-                  | OutOfFuel => inr tt
-                  end
-              | _ => fin (inl (inr (TStuck, s1)))
-              end
-          end
-      end in
+    let invoke := invoke_with (exec fu) depth in
     match is with
     | [] => Normal s f
     | i :: rest =>
@@ -178,72 +263,11 @@ Fixpoint exec (fuel : nat) (depth : nat) (ii : nat) (s : store) (f : frame) (is 
         | Branch (S n) s' f' => Branch n s' f'
         | o => o
         end in
+      match step_simple ii s f i with
+      | SOk s' f' => continue s' f'
+      | STrap t => Trap t s
+      | SNot =>
       match i, stack f with
-      | Nop, _ => continue s f
-      | Unreachable, _ => Trap TUnreachable s
-      | Const w c, stk => continue s (setstack f (of_const D w c :: stk))
-      | Un o, x :: stk => continue s (setstack f (d_un D o x :: stk))
-      | Bin o, y :: x :: stk =>
-          match d_bin D o x y with
-          | Some v => continue s (setstack f (v :: stk))
-          | None => Trap TDiv s
-          end
-      | Drop, _ :: stk => continue s (setstack f stk)
-      | Select, c :: b :: a :: stk => continue s (setstack f ((if truthy D c then a else b) :: stk))
-      | LocalGet k, stk =>
-          match nth_error (locals f) k with
-          | Some v => continue s (setstack f (v :: stk)) | None => Trap TStuck s end
-      | LocalSet k, v :: stk => continue s {| stack := stk; locals := upd (locals f) k v |}
-      | LocalTee k, v :: stk => continue s {| stack := v :: stk; locals := upd (locals f) k v |}
-      | GlobalGet k, stk =>
-          match nth_error (i_globals me) k with
-          | Some ga => match nth_error (s_globals s) ga with
-                       | Some v => continue s (setstack f (v :: stk)) | None => Trap TStuck s end
-          | None => Trap TStuck s end
-      | GlobalSet k, v :: stk =>
-          match nth_error (i_globals me) k with
-          | Some ga => continue (set_globals s (upd (s_globals s) ga v)) (setstack f stk)
-          | None => Trap TStuck s end
-      | Load w n sx off, a :: stk =>
-          match i_mem me with
-          | Some ma => match nth_error (s_mems s) ma with
-            | Some m =>
-                let ea := to_u32 D a + off in
-                if ea + Z.of_nat n <=? mlen m then
-                  let raw := rd_le (mdata m) ea n in
-                  continue s (setstack f (of_bits D w (if sx then sext n w raw else raw) :: stk))
-                else Trap TOob s
-            | None => Trap TStuck s end
-          | None => Trap TStuck s end
-      | Store n off, v :: a :: stk =>
-          match i_mem me with
-          | Some ma => match nth_error (s_mems s) ma with
-            | Some m =>
-                let ea := to_u32 D a + off in
-                if ea + Z.of_nat n <=? mlen m then
-                  let m' := {| mlen := mlen m; mmax := mmax m; mdata := wr_le (mdata m) ea n (to_bits D v) |} in
-                  continue (set_mems s (upd (s_mems s) ma m')) (setstack f stk)
-                else Trap TOob s
-            | None => Trap TStuck s end
-          | None => Trap TStuck s end
-      | MemorySize, stk =>
-          match i_mem me with
-          | Some ma => match nth_error (s_mems s) ma with
-            | Some m => continue s (setstack f (of_bits D 32 (mlen m / 65536) :: stk))
-            | None => Trap TStuck s end
-          | None => Trap TStuck s end
-      | MemoryGrow, d :: stk =>
-          match i_mem me with
-          | Some ma => match nth_error (s_mems s) ma with
-            | Some m =>
-                let cur := mlen m / 65536 in
-                let dz := to_u32 D d in
-                if cur + dz <=? mmax m then
-                  let m' := {| mlen := (cur + dz) * 65536; mmax := mmax m; mdata := mdata m |} in
-                  continue (set_mems s (upd (s_mems s) ma m')) (setstack f (of_bits D 32 cur :: stk))
-                else continue s (setstack f (of_bits D 32 (2 ^ 32 - 1) :: stk))
-            | None => Trap TStuck s end
-          | None => Trap TStuck s end
       | Block np nr body, stk => block_like np nr body stk None
       | Loop np nr body, stk => block_like np nr body stk (Some body)
       | If np nr t e, c :: stk =>
@@ -264,11 +288,11 @@ Fixpoint exec (fuel : nat) (depth : nat) (ii : nat) (s : store) (f : frame) (is 
           | None => Trap TStuck s
           | Some fa =>
               let np := match nth_error (s_funcs s) fa with
-                        | Some (FWasm _ np _ _ _) | Some (FHost _ np _) => np | None => O end in
+                        | Some (FWasm _ tp _ _ _) | Some (FHost _ tp _) => length tp | None => O end in
               match invoke s fa (rev (firstn np stk)) with
-              | inl (inl (s', vs)) => continue s' (setstack f (rev vs ++ skipn np stk))
-              | inl (inr (t, s')) => Trap t s'
-              | inr _ => OutOfFuel
+              | IOk s' vs => continue s' (setstack f (rev vs ++ skipn np stk))
+              | ITrap t s' => Trap t s'
+              | IFuel => OutOfFuel
               end
           end
       | CallIndirect ty, c :: stk =>
@@ -280,16 +304,17 @@ Fixpoint exec (fuel : nat) (depth : nat) (ii : nat) (s : store) (f : frame) (is 
               match (if idx <? Z.of_nat (length tab) then nth_error tab (Z.to_nat idx) else None) with
               | None | Some None => Trap TIndirect s
               | Some (Some fa) =>
-                  let want := nth ty (i_types me) (O, O) in
+                  let want := nth ty (i_types me) ([], []) in
                   let have := match nth_error (s_funcs s) fa with
-                              | Some (FWasm _ np nr _ _) | Some (FHost _ np nr) => Some (np, nr) | None => None end in
+                              | Some (FWasm _ tp tr _ _) | Some (FHost _ tp tr) => Some (tp, tr) | None => None end in
                   match have with
-                  | Some (np, nr) =>
-                      if Nat.eqb np (fst want) && Nat.eqb nr (snd want) then
+                  | Some (tp, tr) =>
+                      let np := length tp in
+                      if list_eqb tp (fst want) && list_eqb tr (snd want) then
                         match invoke s fa (rev (firstn np stk)) with
-                        | inl (inl (s', vs)) => continue s' (setstack f (rev vs ++ skipn np stk))
-                        | inl (inr (t, s')) => Trap t s'
-                        | inr _ => OutOfFuel
+                        | IOk s' vs => continue s' (setstack f (rev vs ++ skipn np stk))
+                        | ITrap t s' => Trap t s'
+                        | IFuel => OutOfFuel
                         end
                       else Trap TIndirect s
                   | None => Trap TStuck s
@@ -297,6 +322,7 @@ Fixpoint exec (fuel : nat) (depth : nat) (ii : nat) (s : store) (f : frame) (is 
               end
           end
       | _, _ => Trap TStuck s
+      end
       end
     end
   end.
@@ -306,8 +332,8 @@ Inductive result := RVals (vs : list V) | RTrap (t : trapk) | RFuel.
 
 Definition call_export (fuel : nat) (s : store) (fa : nat) (args : list V) : store * result :=
   let '(ii, np, nr) := match nth_error (s_funcs s) fa with
-                       | Some (FWasm ii np nr _ _) => (ii, np, nr)
-                       | Some (FHost _ np nr) => (O, np, nr) | None => (O, O, O) end in
+                       | Some (FWasm ii tp tr _ _) => (ii, length tp, length tr)
+                       | Some (FHost _ tp tr) => (O, length tp, length tr) | None => (O, O, O) end in
   (* a synthetic instance whose function 0 is fa *)
   let drv := {| i_funcs := [fa]; i_globals := []; i_mem := None; i_tab := None; i_types := [] |} in
   let s1 := {| s_funcs := s_funcs s; s_insts := s_insts s ++ [drv]; s_globals := s_globals s; s_mems := s_mems s;
